@@ -383,12 +383,71 @@ fn far_cases(ctx: &Ctx) {
     }
 }
 
+/// The instruction sits in a one-line macro body that is expanded several times back to back (all
+/// copies share one source line number), with a pc-relative target and with a label outside.
+fn macro_cases(ctx: &Ctx) {
+    let forms = isa::forms();
+    for (fi, form) in forms.iter().enumerate() {
+        let Some(Opk::Rel { bits, .. }) = form.ops.last().copied() else { continue };
+        let h = 1i64 << (bits - 1);
+        let flag = 3i64;
+        for d in [-h, -h + 1, -2, -1, 0, 1, 5, h - 2, h - 1] {
+            // (a) pc-relative target, three copies + one copy through an outer macro
+            let t = d + 1;
+            let target = if t >= 0 { format!("pc+{}", t) } else { format!("pc-{}", -t) };
+            let line = if form.ops.len() == 2 { format!("\t{} {}, {}", form.mn, flag, target) } else { format!("\t{} {}", form.mn, target) };
+            let src = format!("; C03 macro case\n.macro jm\n{}\n.endm\n.macro twice\n\tjm\n\tjm\n.endm\n\tnop\n\tjm\n\tjm\n\tjm\n\ttwice\n\tnop\n", line);
+            let vals: Vec<i64> = if form.ops.len() == 2 { vec![flag, d] } else { vec![d] };
+            let w = isa::words_to_bytes(&isa::encode(form, &vals));
+            let mut expect = vec![0u8, 0];
+            for _ in 0..5 {
+                expect.extend(&w);
+            }
+            expect.extend([0u8, 0]);
+            let out = fw::build_str(&src);
+            ctx.eval(1);
+            ctx.distinct(fw::mix64(0x3AC0 ^ (fi as u64) << 8, d as u64));
+            if !matches!(&out, Outcome::Ok(b) if b.code == expect) {
+                ctx.violation(
+                    format!("rel/{}/in-repeated-macro-body/pc-relative", form.name),
+                    format!("{} {} in a one-line macro body expanded five times: {}", form.mn, target, fw::clip(&format!("{:?}", out.brief()), 200)),
+                    json!({"source": src, "form": form.name, "flag": flag, "d": d, "fits": true, "instr_word_addr": 1, "expect_code": fw::hex(&expect, 4096), "observed": out.brief()}),
+                );
+            }
+            // (b) label target outside the macro: copy k sits at word 1+k, the label at word T
+            if d >= 3 && d < 60 {
+                let tword = 1 + 1 + d; // first copy at word 1 reaches T = 1 + 1 + d
+                let line = if form.ops.len() == 2 { format!("\t{} {}, tgt_lbl", form.mn, flag) } else { format!("\t{} tgt_lbl", form.mn) };
+                let filler = (tword - 4) as usize; // words 1,2,3 are the copies
+                let src = format!("; C03 macro label case\n.macro jl\n{}\n.endm\n\tnop\n\tjl\n\tjl\n\tjl\n{}tgt_lbl:\n\tnop\n", line, "\tnop\n".repeat(filler));
+                let mut expect = vec![0u8, 0];
+                for k in 0..3i64 {
+                    let dk = tword - (1 + k + 1);
+                    let vals: Vec<i64> = if form.ops.len() == 2 { vec![flag, dk] } else { vec![dk] };
+                    expect.extend(isa::words_to_bytes(&isa::encode(form, &vals)));
+                }
+                expect.extend(std::iter::repeat(0u8).take(filler * 2 + 2));
+                let out = fw::build_str(&src);
+                ctx.eval(1);
+                if !matches!(&out, Outcome::Ok(b) if b.code == expect) {
+                    ctx.violation(
+                        format!("rel/{}/in-repeated-macro-body/label", form.name),
+                        format!("{} tgt_lbl in a one-line macro body expanded three times: {}", form.mn, fw::clip(&format!("{:?}", out.brief()), 200)),
+                        json!({"source": src, "form": form.name, "flag": flag, "d": d, "fits": true, "instr_word_addr": 1, "expect_code": fw::hex(&expect, 4096), "observed": out.brief()}),
+                    );
+                }
+            }
+        }
+    }
+}
+
 pub fn run(ctx: &Ctx) -> i32 {
     if let Err(e) = isa::selfcheck() {
         println!("HARNESS-FAILURE property=C03 {}", e);
         return 2;
     }
     far_cases(ctx);
+    macro_cases(ctx);
     let cs = cases(ctx);
     let mut forms_seen = std::collections::BTreeSet::new();
     for c in &cs {
@@ -400,7 +459,7 @@ pub fn run(ctx: &Ctx) -> i32 {
     ctx.exhaustive.store(true, std::sync::atomic::Ordering::Relaxed);
     fw::finish(
         ctx,
-        "for each of the 18 br<cond> mnemonics, brbs/brbc x 8 flags, rjmp and rcall: every displacement in the stated window (branches -80..80; rjmp/rcall around both limits and zero, thorough -2100..2100) x filler mixes (nop-only and random mixes of one/two-word instructions, .dw/.db/.dq data, .org gaps) x target spellings (label, label+k, label-k, pc±k) x start addresses; plus far targets: displacements within ±65/±2049 of ±2^k for k up to 40, pc-relative and through labels placed with .org (all must be rejected); distinct_nontrivial = distinct (mnemonic, flag, displacement) triples",
+        "for each of the 18 br<cond> mnemonics, brbs/brbc x 8 flags, rjmp and rcall: every displacement in the stated window (branches -80..80; rjmp/rcall around both limits and zero, thorough -2100..2100) x filler mixes (nop-only and random mixes of one/two-word instructions, .dw/.db/.dq data, .org gaps) x target spellings (label, label+k, label-k, pc±k) x start addresses; plus far targets: displacements within ±65/±2049 of ±2^k for k up to 40, pc-relative and through labels placed with .org (all must be rejected); and every form inside a one-line macro body expanded several times back to back (pc-relative and label targets); distinct_nontrivial = distinct (mnemonic, flag, displacement) triples",
         &["distances are realised with reference encodings of the filler items (refmodel/isa.rs); decode by the independent decoder"],
     )
 }
